@@ -67,7 +67,10 @@ def dump_bytecode(src):
 def c12_lx():
     """A fixed slice of the multi-entry multi-exit loop family: loops with several headers entered from several blocks."""
     from ..families import loop_exit_family
-    return loop_exit_family(3, 3)[::40]
+    fam = loop_exit_family(3, 3)
+    # loops with three headers entered from two different blocks (entry -> (h0, q), q -> (h1, h2)): every 12th of them
+    multi = [g for g in fam if len(g[0]) == 2 and any(len(g[t]) == 2 and 0 < t < 3 for t in g[0]) and len(g) >= 8]
+    return multi[::30][:12]
 
 
 def c12_labelings(g):
@@ -75,8 +78,11 @@ def c12_labelings(g):
     that tie under numeric / case-folded keys.  Small classes get all three; larger front-end graphs alternate (by a
     fixed function of the graph) between the interleaving and the tie labelling."""
     n = len(g)
-    if n <= 4:
+    if n <= 3:
         return labelings(n, "eo") + labelings(n, "ties")
+    if n == 4:
+        ties = labelings(n, "ties")
+        return labelings(n, "eo") + [ties[sum(len(r) + sum(r) for r in g) % len(ties)]]
     ties = labelings(n, "ties")
     menu = labelings(n, "eo") + ties          # 1 + 3 labellings; larger graphs get one of them each
     pick = sum(len(r) + sum(r) for r in g) % len(menu)
@@ -125,7 +131,7 @@ def _work(args):
             acc.counters[f"graphs[{fam}]"] += 1
             r0 = acc.counters["runs"]
             explore(dump_graph, g, 1, acc, graph_case(g, fam, "JLB", kind="graph"), "restructure")
-            if len(g) >= 4:
+            if len(g) >= 4 and fam != "LX":
                 # the same graph under names whose order interleaves sibling loops / arms (families.labelings "mix")
                 try:
                     for lab in c12_labelings(g):
@@ -158,12 +164,17 @@ def corpus(tier):
     return graphs, progs
 
 
+_S2SET = set()
+
+
 def digest_corpus(tier) -> str:
     graphs, progs = corpus(tier)
+    from ..sweep import frontend_graphs
+    _S2SET.update(frontend_graphs(2))
     h = hashlib.sha256()
     for g in graphs:
         h.update(repr(dump_graph(g)).encode())
-        if len(g) >= 4:
+        if 4 <= len(g) <= 7 or (len(g) >= 4 and g in _S2SET):
             try:
                 for lab in c12_labelings(g):
                     set_labeling(lab)
@@ -196,12 +207,12 @@ def _seed_leg(args):
 def run(tier: str, seed: int):
     units = []
     if tier == "quick":
-        units += [("graphs", u, 1) for u in units_for({"E": 4})]
         from ..sweep import frontend_graphs
-        s2g = frontend_graphs(2)       # CFGs of the source front end for S(<=2): up to 9 blocks, loops with several latches
-        units += [("graphs", ("L", "S2", s2g[i:i + 6]), 1) for i in range(0, len(s2g), 6)]
         lxg = c12_lx()
-        units += [("graphs", ("L", "LX", lxg[i:i + 4]), 1) for i in range(0, len(lxg), 4)]
+        units += [("graphs", ("L", "LX", [g]), 1) for g in lxg]                  # the expensive instances first, one per unit
+        s2g = sorted(frontend_graphs(2), key=len, reverse=True)   # CFGs of the source front end for S(<=2): up to 9 blocks
+        units += [("graphs", ("L", "S2", s2g[i:i + 3]), 1) for i in range(0, len(s2g), 3)]
+        units += [("graphs", u, 1) for u in units_for({"E": 4})]
         s1 = list(skeleton_sources(1, "marked")) + list(skeleton_sources(1, "bare"))
         units += [("progs", s1[i:i + 8], 1) for i in range(0, len(s1), 8)]
     else:
